@@ -104,3 +104,14 @@ Theorem C16_leaf_encode_total_len_u32_differs :
   ((((64 / 32) mod 3 + 536870906) * 8 + 32) mod W32) / 4 = 0.
 Proof. exact LeafRich.total_len_rich_model_differs. Qed.
 Print Assumptions C16_leaf_encode_total_len_u32_differs.
+
+(* the source places the binders of the generated leaf definitions stand for (third audit, F2) *)
+From Coq Require Import List String.
+Import ListNotations.
+Theorem C16_leaf_reads_rich :
+  Leaf.L_rich_structure_RichRecord_decode_args = ["key : u32"%string; "values[0] : u32"%string; "values[1] : u32"%string] /\
+  Leaf.L_rich_structure_RichRecord_encode_args = ["self.build : u16"%string; "self.product : u16"%string; "self.count : u32"%string; "key : u32"%string] /\
+  Leaf.L_rich_structure_checksum__record_step_args = ["csum : u32"%string; "record.build : u16"%string; "record.product : u16"%string; "record.count : u32"%string] /\
+  Leaf.L_rich_structure_encode__total_len_args = ["n : usize"%string; "xor_key : u32"%string].
+Proof. exact LeafRich.leaf_reads_rich. Qed.
+Print Assumptions C16_leaf_reads_rich.
